@@ -22,6 +22,31 @@ if tests:
     names = re.findall(r"^func (Test\w+)", src, re.M)
     m = re.search(r"((?:tars|contrib)/[A-Za-z0-9_/]+?)/?(?:[A-Za-z0-9_]*_test\.go|\s|`|\)|,|\.)", meta.get("demo", ""))
     pkgdir = m.group(1) if m else os.path.dirname(meta["files_touched"][0])
+    if not PKG:
+        # choose the package directory by the demo's package clause: directories whose Go package has that name, preferring one
+        # named in the seeder's instructions, then the directory of the changed file
+        pm = re.search(r"^package\s+(\w+)", src, re.M)
+        want = pm.group(1)[:-5] if pm and pm.group(1).endswith("_test") else (pm.group(1) if pm else None)
+        cands = []
+        for root, _, files in os.walk(wt):
+            if "/.git" in root:
+                continue
+            for f in files:
+                if f.endswith(".go") and not f.endswith("_test.go"):
+                    try:
+                        head = open(os.path.join(root, f)).read(4000)
+                    except Exception:
+                        continue
+                    m2 = re.search(r"^package\s+(\w+)", head, re.M)
+                    if m2 and m2.group(1) == want:
+                        cands.append(os.path.relpath(root, wt)); break
+        text = meta.get("demo", "") + " " + meta.get("ran", "")
+        named = sorted([c for c in cands if re.search(re.escape(c) + r"(/|\b)", text)], key=len, reverse=True)
+        touched = [os.path.dirname(f) for f in meta.get("files_touched", [])]
+        pick = named[0] if named else next((c for c in cands if c in touched), cands[0] if cands else pkgdir)
+        pkgdir = pick
+        if not TAGS and "-tags verif" in text:
+            TAGS = "verif"
     pkgdir = (PKG or pkgdir).rstrip("/")
     if not os.path.isdir(os.path.join(wt, pkgdir)):
         pkgdir = os.path.dirname(meta["files_touched"][0])
